@@ -23,7 +23,7 @@ TRUSTED = ["abstract group contract GC; SHA-256 uninterpreted, no collisions amo
 ASSUMPTIONS = ["'different group' is modelled as different encoding widths, or same field with another generator; two "
                "unrelated groups of identical widths are only covered by the ground facts on the shipped sets"]
 
-VARIANTS = ["same", "M", "N", "S", "gen", "group"]
+VARIANTS = ["same", "M", "N", "S", "MNcat", "gen", "group"]
 
 
 def jobs(tier):
@@ -41,7 +41,7 @@ def jobs(tier):
 
 
 def _uses(cls, v):
-    return v in ("gen", "group") or (cls in "AB" and v in ("M", "N")) or (cls == "S" and v == "S")
+    return v in ("gen", "group") or (cls in "AB" and v in ("M", "N", "MNcat")) or (cls == "S" and v == "S")
 
 
 def job_cross(J, qn, k1, k2, variant):
@@ -54,7 +54,13 @@ def job_cross(J, qn, k1, k2, variant):
         setup_hash_axioms(ctx)
         g1 = AbsGroup(q, tag="G")
         p1 = P._Params(g1)
-        if variant == "same":
+        if variant == "MNcat":
+            # both blinding elements differ, but the seed strings have the same concatenation ('ab','c' vs 'a','bc')
+            p1 = P._Params(g1, M=b"ab", N=b"c")
+            p2 = P._Params(g1, M=b"a", N=b"bc")
+            ctx.assume((p1.M.log - p2.M.log) % q != 0)
+            ctx.assume((p1.N.log - p2.N.log) % q != 0)
+        elif variant == "same":
             p2 = P._Params(g1)
         elif variant in ("M", "N", "S"):
             kw = {variant: {"M": b"M2", "N": b"N2", "S": b"symmetric2"}[variant]}
@@ -188,7 +194,10 @@ def oracle_wrongparams(k1, k2, variant, pw, idA, idB, x):
     for nm in ("Ed25519", "I1024", "toy11", "toy1019"):
         p1 = C.params_by_name(nm)
         g = p1.group
-        if variant == "same":
+        if variant == "MNcat":
+            p1 = _Params(g, M=b"ab", N=b"c")
+            p2 = _Params(g, M=b"a", N=b"bc")
+        elif variant == "same":
             p2 = _Params(g)
         elif variant in ("M", "N", "S"):
             p2 = _Params(g, **{variant: b"other seed"})
